@@ -129,6 +129,86 @@ def run_shard(args):
     return res
 
 
+# ---------------------------------------------------------------------------------------
+# construction order: in a *lazy* world nothing exists until an event mentions it, so "which other formulas
+# were previously built" really changes the creation order (node ids) of shared symbols, constants and sub-terms
+
+ORDER_TARGETS = ALL + [n for n, _ in H.ORDER_TABLE]
+_OREF = {}
+
+
+def order_events():
+    evs = [("build", n) for n in ORDER_TARGETS]
+    # the spellings of one value matter to the value-keyed caches (eager part); here only the creation order does
+    evs += [("const", c) for c in ["Int(1)", "Real(0.5)", "String('a')", "BV(1,2)"] + list(H.ORDER_CONSTS)]
+    evs.append(("fresh",))
+    evs += [("parse", t) for t in H.PARSE_TEXTS]
+    return evs
+
+
+def order_probes(target):
+    return [e for e in H.query_events([target]) if len(e) > 1 and e[1] == target and e[0] not in ("theory_mutate", "build")]
+
+
+def order_reference(target):
+    if target not in _OREF:
+        w = H.World(lazy=True)
+        push_env(w.env)
+        try:
+            probes = order_probes(target)
+            _OREF[target] = (probes, [w.observe(p) for p in probes])
+        finally:
+            pop_env()
+    return _OREF[target]
+
+
+def run_order(hist, target):
+    probes, want = order_reference(target)
+    w = H.World(lazy=True)
+    push_env(w.env)
+    try:
+        for ev in hist:
+            try:
+                w.call(ev)
+            except Exception:
+                pass
+        for p, exp in zip(probes, want):
+            got = w.observe(p)
+            if got != exp:
+                return ("differs", "with %s done before %s exists, the probe %s gives %s; when %s is the first thing "
+                        "built in the environment it gives %s" % (list(hist), target, p, _short(got), target, _short(exp)), p)
+        return None
+    finally:
+        pop_env()
+
+
+def run_order_shard(args):
+    first, L, build_only_tail = args
+    res = Result()
+    events = order_events()
+    later = [e for e in events if e[0] == "build"] if build_only_tail else events
+    for l in range(1, L + 1):
+        for tail in itertools.product(later, repeat=l - 1):
+            hist = (first,) + tail
+            for target in ORDER_TARGETS:
+                res.count("evaluations")
+                res.count("order_cases")
+                bad = run_order(hist, target)
+                res.outcome("order:%s:%s" % (_ab(hist[-1]), "ok" if bad is None else bad[0]))
+                if l >= 2:
+                    res.count("nontrivial")
+                if bad:
+                    cur = list(hist)
+                    for i in range(len(cur) - 1, -1, -1):
+                        cand = cur[:i] + cur[i + 1:]
+                        b = run_order(tuple(cand), target) if cand else None
+                        if b and _ab(b[2]) == _ab(bad[2]):
+                            cur, bad = cand, b
+                    sig = "order:%s=>%s(%s):%s" % ("→".join(_ab(e) for e in cur), _ab(bad[2]), target, bad[0])
+                    res.violation("order", sig, bad[1], {"order_history": [list(e) for e in cur], "target": target})
+    return res
+
+
 def run(ctx):
     ctx.level = "model_checking"
     q = ctx.quick
@@ -140,6 +220,10 @@ def run(ctx):
                 "nnf/cnf/prenex/aig, %d constant spellings, FreshSymbol) each followed by the full probe set (%d probes) "
                 "compared with a fresh environment; no state merging (a state is a history); non-trivial = length >= 2"
                 % (L, len(events), len(H.CONST_SPELLINGS), len(H.probe_events(ALL))))
+    ctx.rule += ("; construction order: in a lazy world (symbols and formulas are created on first use) all histories of "
+                 "length <= 2 of build / constant / FreshSymbol / parse events before each of %d target formulas exists, "
+                 "then every query on the target, compared with an environment in which the target is the first thing built"
+                 % len(ORDER_TARGETS))
     ctx.assumptions = ["comparison is up to the order of commutative arguments (AC key) and the numbering of fresh symbols",
                        "exceptions are compared by type"]
     shards = [(e, L, event_names, ALL, ctx.seed) for e in events]
@@ -150,6 +234,16 @@ def run(ctx):
             shards.append((e, 3, small, ALL, ctx.seed))
     ctx.rng.shuffle(shards)
     ctx.pmap(run_shard, shards)
+    # construction order (lazy worlds): all histories of length <= 2 of build / constant / fresh / parse events
+    # before each target formula exists [thorough: length 3 with build events in the later positions]
+    oshards = [(e, 2, False) for e in order_events()]
+    if not q:
+        oshards += [(e, 3, True) for e in order_events()]
+    ctx.rng.shuffle(oshards)
+    ctx.pmap(run_order_shard, oshards)
+    ctx.coverage["order_part"] = {"events": len(order_events()), "targets": len(ORDER_TARGETS),
+                                  "cases": ctx.res.counters.get("order_cases", 0),
+                                  "probes_per_target": len(order_probes("F9"))}
     n = ctx.res.counters.get("evaluations", 0)
     ctx.coverage.update({"states": n, "transitions": n * len(H.probe_events(ALL)),
                          "traces_validated_against_impl": n, "history_length": L, "events": len(events)})
@@ -157,6 +251,12 @@ def run(ctx):
 
 def replay(rec):
     c = rec["case"]
+    if "order_history" in c:
+        hist = tuple(tuple(e) for e in c["order_history"])
+        bad = run_order(hist, c["target"])
+        if bad:
+            return False, bad[1]
+        return True, "with %s done before %s exists every probe agrees with a fresh environment" % (list(hist), c["target"])
     hist = tuple(tuple(e) for e in c["history"])
     bad = run_history(hist, c.get("probes", ALL))
     if bad:
